@@ -89,7 +89,7 @@ func c19IsData(argv [][]byte) bool {
 	case "cluster", "ping", "info", "command", "auth", "select":
 		return false
 	}
-	return true
+	return !redisd.NonData(string(argv[0]))
 }
 
 type c19Rec struct {
